@@ -41,3 +41,15 @@ PROPS["C15"] = {
     "outside": "re-registration of the same (op, node); membership changes; concurrent register/ack (both sides serialise on the pending_opps write lock)",
     "assumptions": ["environment shims"],
 }
+
+PROPS["C01"] = {
+    "level": "model_checking",
+    "harnesses": [
+        {"name": "c01_step", "params": {"quick": {"admin": 0}}},
+        {"name": "c01_step_admin", "fn": "c01_step", "params": {"quick": {"admin": 1}}},
+    ],
+    "bounds": {"quick": "one command of {get, get-safe, set v, set-safe ver v, remove, increment n, keys pattern} through process_request against key k whose pre-state is any of {absent, New, Ok, Updated, Deleted(tombstone)} with any value (<= 4 printable chars), version in [1, 1e6), any disk offsets; one live neighbour key; non-admin and admin session",
+               "thorough": "same plus two consecutive commands"},
+    "outside": "sequences longer than the bound (covered inductively through the representation invariant checked on the post-state); values containing ';' or newline (command terminators on the wire); non-ASCII values",
+    "assumptions": ["representation invariant of a stored key assumed on the pre-state and re-checked on the post-state: New => disk offsets 0, Deleted => value '<Empty>'", "environment shims"],
+}
